@@ -124,6 +124,8 @@ std::map<IndexCombination4,std::vector<ComplexType> > TwoParticleGFContainer::co
 
             if (comm.rank() != sender) {
                 chi.setStatus(TwoParticleGF::Computed);
+                // the terms received above make this part evaluable (unless they were purged)
+                if (!clearTerms) chi.parts[p]->Status = TwoParticleGFPart::Computed;
                  };
             };
     }
